@@ -81,6 +81,17 @@ CHECKS["C17"] = dict(
     technique="Lean 4 proofs over a functional model + differential correspondence of the real functions",
     design="5/C17", engine="proxy")
 
+CHECKS["C18"] = dict(
+    text="Kernel-checked non-interference of the *regenerated* GetSanitized (two configurations differing only in wallet key, "
+         "mnemonic and node URL have the same sanitised form; decided over the regenerated assignment list for the whole field "
+         "table and lifted to all configurations), AST facts on where the whole configuration value flows (loader; HTTP handler "
+         "behind an interface whose only method is GetSanitized; the start-up print uses GetSanitized), and fail-closed theorems "
+         "for the decryption glue with the primitive as a parameter (a destination only if decryption and parsing both succeeded, "
+         "and then exactly that one; rejected ciphertext => error and no destination; round trip under an inverting primitive). "
+         "Partial: the cryptographic strength of ECIES is assumed and only sampled (all truncations / single-byte corruptions).",
+    technique="Lean 4 proof over Go->Lean regenerated assignments (decide over the field table + lifting lemma) + glue model with the primitive as parameter + differential correspondence",
+    design="5/C18", engine="config")
+
 NOT_YET = {}
 
 ALL = ["C%02d" % i for i in range(1, 21)]
